@@ -35,6 +35,13 @@ FIELD_SORTS: dict[str, tuple[tuple, object]] = {
     "setmem": ((Ref, Ref), Bool),       # membership of a set object
     "dmem": ((Ref, Ref), Bool),         # keys of a dict object keyed by references
     "dkeys": ((Ref,), RSeq),            # keys of a dict object in insertion order (dict used as an ordered set)
+    # pyvis.network.Network objects (assumed contract of the third-party class, DESIGN.md C15)
+    "net_nodes": ((Ref,), z3.SeqSort(Int)),    # node ids in insertion order
+    "net_labels": ((Ref,), RSeq),            # their labels
+    "net_from": ((Ref,), z3.SeqSort(Int)),
+    "net_to": ((Ref,), z3.SeqSort(Int)),
+    "net_arrow": ((Ref,), z3.SeqSort(Int)),    # 1 = arrowed ("arrows": "to"), 0 = plain
+    "net_directed": ((Ref,), Bool),
     # dynamic instance attributes (attributes=, setattr, temporaries)
     "dyn_has": ((Ref, Str), Bool),
     "dyn_val": ((Ref, Str), Ref),
